@@ -42,7 +42,8 @@ def cases(tier, seed, info):
     per = 8 if tier == 'quick' else 400
     items = []
     for r in routes:
-        for k in range(per):
+        builtin = r['creator'] == 'bmc' and r['comp'] == 'builtin' and r['kind'] != 'OTHER'
+        for k in range(per * (4 if builtin else 1)):
             items.append(dict(route=r, k=k))
     # maximum-size payloads
     for kind, n in (('UD', 65527), ('ED', 65523), ('OTHER', 65527)) if tier == 'quick' else \
